@@ -148,6 +148,25 @@ def run_version(args):
                 names, values = [f.name for f in st.fields], [getattr(st, f.name) for f in st.fields]
             if not keyword:
                 return values, {}
+            if keyword == "alt":
+                # the same argument values in another Python representation the declared type accepts: a plain int / bytes / list, or an
+                # instance of a SUBCLASS of the declared type (e.g. a 4-byte-length byte string where a 1-byte-length one is declared):
+                # the frame carries the encoding of the DECLARED type either way
+                import bellows.types as bt
+                import zigpy.types as zt
+                out = []
+                for v in values:
+                    ty = type(v)
+                    subs = [c for c in vars(bt).values() if isinstance(c, type) and c is not ty and issubclass(c, ty)]
+                    if isinstance(v, bytes) and not isinstance(v, zt.Struct):
+                        out.append(subs[0](bytes(v)) if subs and rng.random() < 0.7 else bytes(v))
+                    elif isinstance(v, int) and not isinstance(v, bool):
+                        out.append(int(v))
+                    elif isinstance(v, (list, tuple)) and not isinstance(v, zt.Struct):
+                        out.append(list(v))
+                    else:
+                        out.append(v)
+                return out, {}
             pairs = list(zip(names, values))
             if keyword == "rev":
                 return [], dict(reversed(pairs))
@@ -207,7 +226,7 @@ def run_version(args):
                     ev["chunks"] = [list(v.serialize()) for v in vals]
                 rxevs = []
                 nargs = (len(txi) if isinstance(tx_schema, dict) else len(vals[0].fields)) if txi is not None and vals else 0
-                forms = (False, True) + (("rev", "mixed") if nargs >= 2 else ())
+                forms = (False, True) + (("rev", "mixed") if nargs >= 2 else ()) + (("alt",) if nargs >= 1 and isinstance(tx_schema, dict) else ())
                 ev["forms"] = []
                 for keyword in forms:
                     s0 = proto._seq
